@@ -32,12 +32,28 @@ func Handle(h Handler) mux.Option {
 // Handler responds to roster pushes.
 // If Push returns a stanza.Error it is sent as an error response to the IQ
 // push, otherwise it is passed through and returned from HandleIQ.
+//
+// Only pushes that come from the account itself (they have no from attribute,
+// or one that is the bare JID of the address they were sent to) are processed.
+// As required by RFC 6121 §2.1.6 pushes from any other entity are not passed
+// to Push and are answered with a service-unavailable error.
 type Handler struct {
 	Push func(ver string, item Item) error
 }
 
 // HandleIQ responds to roster push IQs.
 func (h Handler) HandleIQ(iq stanza.IQ, t xmlstream.TokenReadEncoder, start *xml.StartElement) error {
+	// RFC 6121 §2.1.6: a roster push must be ignored unless it has no from
+	// attribute or it is from the bare JID of the user's account (a session
+	// clears a from attribute that is its own bare JID before it gets here).
+	if !iq.From.Equal(jid.JID{}) && !iq.From.Equal(iq.To.Bare()) {
+		_, err := xmlstream.Copy(t, iq.Error(stanza.Error{
+			Type:      stanza.Cancel,
+			Condition: stanza.ServiceUnavailable,
+		}))
+		return err
+	}
+
 	item := Item{}
 	err := xml.NewTokenDecoder(t).Decode(&item)
 	if err != nil {
